@@ -304,7 +304,8 @@ def main(tier, seed):
     rep = Report("C03", tier, seed)
     rep.rule = (
         "S->C: every ordered family of <= 3 terms (<= 3 factors each) over {f,g,h,x} with and without intercept (4760), plus "
-        "families with swapped factor orders; thorough adds all families over four categorical factors (sampled beyond 3 terms) "
+        "families with swapped factor orders, all families of <= 2 terms of arity <= 4 over four categorical factors; thorough adds "
+        "all families of <= 4 such terms (sampled) "
         "and {f,g,h,x,z}; each on replicated complete-factorial data with random level counts 2..4, as plain variables and as "
         "C/T/S/scale/center/bs/poly atoms, with random factor order inside terms. Exact integer ranks (mod p, confirmed) for "
         "integer designs, SVD with a gap test for spline/poly/scale atoms. Non-trivial = distinct (family, atom variant) with "
@@ -325,6 +326,9 @@ def main(tier, seed):
         replay(rep, sw, seed + 2, ["plain"], sample=500)
         replay(rep, sw, seed + 4, ["plain"], shuffle=True, sample=500)   # random factor order inside every term
         operator_forms(rep, cases, seed)
+        # four-way interactions need one more round of extra terms than any three-way family
+        c4 = export_families(rep, "FactorsCat4", 4, 2)
+        replay(rep, c4, seed + 3, ["plain"])
         pick_traces(rep, 400, seed)
     else:
         replay(rep, cases, seed, ["plain"])
